@@ -6,7 +6,7 @@ import random
 import apicheck as A
 import gen_stylemap as GS
 import htmlobs as HO
-from gen_docx import el
+from gen_docx import el, rpr_noise, RPR_TWINS
 
 TOGGLES = ["w:b", "w:i", "w:strike", "w:caps", "w:smallCaps"]
 SPELLINGS = [None, "bare", "true", "1", "false", "0"]
@@ -25,7 +25,58 @@ def rpr(props, rng):
     if props["hl"] is not None:
         ch.append(el("w:highlight", [("w:val", props["hl"])]))
     rng.shuffle(ch)
+    if props.get("noise"):
+        # siblings that are nothing to the converter (see gen_docx.rpr_noise): all before, all after, or anywhere among the others
+        noise = [el(*n) for n in props["noise"]]
+        if props.get("noise_at") == "before":
+            ch = noise + ch
+        elif props.get("noise_at") == "after":
+            ch = ch + noise
+        else:
+            ch = ch + noise
+            rng.shuffle(ch)
     return el("w:rPr", [], ch)
+
+
+def meaningful(props):
+    """[(tag, w:val or None)] of the run properties of `props` that the converter reads and that are present"""
+    out = [(t, None if sp == "bare" else sp) for t, sp in props["toggles"].items() if sp is not None]
+    if props["u"] != "absent":
+        out.append(("w:u", None if props["u"] == "bare" else props["u"]))
+    if props["va"]:
+        out.append(("w:vertAlign", props["va"]))
+    if props["hl"] is not None:
+        out.append(("w:highlight", props["hl"]))
+    return out
+
+
+def noise_enrich(rng, plist, p=0.6):
+    """give some runs of plist run properties that the converter must not read (complex-script twins of bold / italic, double
+    strike-through, hidden, embossed ..., a tracked former w:rPr), with on/off values that mostly CONTRADICT the meaningful
+    neighbour, before / after / among the meaningful ones.  Returns the number of runs changed."""
+    n = 0
+    for k, props in enumerate(plist):
+        if rng.random() < p:
+            noise = rpr_noise(rng, meaningful(props), rich=rng.choice([0.3, 0.6, 0.9]))
+            if noise:
+                plist[k] = dict(props, noise=noise, noise_at=rng.choice(["before", "after", "among", "among"]))
+                n += 1
+    return n
+
+
+def twin_cases(rng):
+    """every toggle the converter reads x (absent, on, off) x its ignorable twin (on, off) x (twin first, twin last): the
+    twin never decides anything"""
+    plain = {"toggles": {t: None for t in TOGGLES}, "u": "absent", "va": None, "hl": None}
+    out = []
+    for tag in TOGGLES:
+        for twin in RPR_TWINS[tag]:
+            for own in (None, "bare", "1", "false", "0"):
+                for tw in ([], [("w:val", "true")], [("w:val", "0")], [("w:val", "false")]):
+                    for at in ("before", "after"):
+                        props = dict(plain, toggles=dict(plain["toggles"], **{tag: own}), noise=[[twin, [list(a) for a in tw], []]], noise_at=at)
+                        out.append(props)
+    return out
 
 
 def random_props(rng):
@@ -232,6 +283,10 @@ def run(out, tier, seed, model_ok):
         plain = {"toggles": {t: None for t in TOGGLES}, "u": "absent", "va": None}
         plist = [dict(plain, hl=color), dict(plain, hl=HL_COLORS[(k + 5) % len(HL_COLORS)]), dict(plain, hl=color)]
         cs.append(make_case(rng, "c11-hl-%s" % color, plist, {"highlight-rules": [[color, "mark.a"], [None, "mark"]]}))
+    # ignorable twins of every toggle (w:bCs, w:iCs, w:dstrike, ...): exhaustive over own state x twin state x order, three runs per paragraph
+    tw = twin_cases(rng)
+    for k in range(0, len(tw), 3):
+        cs.append(make_case(rng, "c11-twin-%d" % k, tw[k:k + 3], {}))
     nex = len(cs)
     tags = ["span", "code", "mark", "u", "b", "del", "strong", "em", "span.bold", "span.italic", "span.x", "span[title='t']", "span[title='u']"]
     for i in range(common.deepen(2000 if tier == "quick" else 30000)):
@@ -242,6 +297,8 @@ def run(out, tier, seed, model_ok):
             plist.append(dict(plist[-1]) if plist and rng.random() < 0.4 else random_props(rng))
         if rng.random() < 0.4:
             hl_enrich(rng, plist, mapped)
+        if rng.random() < 0.45:
+            noise_enrich(rng, plist)
         cs.append(make_case(rng, "c11-r%d-%d" % (seed, i), plist, mapped))
     run_ = A.ApiRun(out, "C11", model_ok, project, observers=[chains_ok, sequence_ok], name="wrappers")
     run_.run(cs, nontrivial=lambda c, r: any(expected_chain(p, c["mapped"]) for p in c["props"]))
@@ -264,6 +321,8 @@ def run(out, tier, seed, model_ok):
             plist.append(p)
             letter = chr(0x41 + k)
             texts.append(rng.choice([" ", " ", "  ", "\t", " \n", "\u00a0"]) if rng.random() < 0.35 else rng.choice(["%s", "%s", "%s ", " %s", "%s %s"]).replace("%s", letter))
+        if rng.random() < 0.3:
+            noise_enrich(rng, plist, 0.5)
         ws.append(make_text_case(rng, "c11-ws%d-%d" % (seed, i), plist, mapped, texts))
     run_ws = A.ApiRun(out, "C11", model_ok, project, observers=[sequence_ok], name="wrappers-text")
     run_ws.run(ws, nontrivial=lambda c, r: any(expected_chain(p, c["meta"]["mapped"]) for p in c["meta"]["props"]))
@@ -275,6 +334,10 @@ def run(out, tier, seed, model_ok):
                 "compared with an independent reading of the statement and with the Lean model; non-trivial = some run has a wrapper")
     out.rule += ("; plus paragraphs of 2-5 runs whose texts are white space only or a letter with spaces around it, with plain (absent / switched-off) runs between "
                  "equally or partly equally formatted ones; observation there = the whole sequence (character, enclosing inline elements) of the paragraph in order")
+    out.rule += ("; in 45% of the random cases (30% of the white-space ones) runs also carry run properties the converter must not read -- complex-script and "
+                 "look-alike on/off properties (w:bCs, w:iCs, w:dstrike, w:vanish, w:webHidden, w:emboss, w:rtl, w:cs ...) whose value mostly contradicts the w:b / w:i / "
+                 "w:strike ... next to them, valued properties (w:szCs, w:color, w:shd ...), a w:rPrChange holding a former w:rPr -- before, after or among the meaningful "
+                 "siblings; exhaustively: every toggle x (absent, on, off) x its twin (on, off) x (twin first, twin last)")
     out.extra.update(exhaustive_part=nex)
     out.sample({"props": cs[nex]["props"], "mapped": cs[nex]["mapped"]})
     out.sample({"props": cs[-1]["props"], "mapped": cs[-1]["mapped"]})
